@@ -470,7 +470,7 @@ class ProvRecord(object):
             return False
         if self.get_type() != other.get_type():
             return False
-        if self._identifier and not (self._identifier == other._identifier):
+        if not (self._identifier == other._identifier):
             return False
 
         return set(self.attributes) == set(other.attributes)
@@ -2295,6 +2295,8 @@ class ProvDocument(ProvBundle):
             return False
 
         # Comparing the documents' bundles
+        if len(self._bundles) != len(other._bundles):
+            return False
         for b_id, bundle in self._bundles.items():
             if b_id not in other._bundles:
                 return False
